@@ -122,7 +122,7 @@ include the node itself, and next to another inner node the recursion would neve
 def leavesUnderQ (g : G) (n : Nat) : TRes (List Nat) :=
   if !g.directed then .exc else leavesUnder g (g.nodes.length + 2) n []
 
-/-- `fillSubtreeMetNodes_` (:622) -/
+/-- `fillSubtreeMetNodes_` (:627) -/
 def subtreeNodes (g : G) : Nat → Nat → List Nat → TRes (List Nat)
   | 0, _, _ => .fuel
   | fuel + 1, n, met =>
@@ -130,7 +130,7 @@ def subtreeNodes (g : G) : Nat → Nat → List Nat → TRes (List Nat)
     | none => .exc
     | some sons => sons.foldl (fun acc s => match acc with | .ok m => subtreeNodes g fuel s m | r => r) (.ok (met ++ [n]))
 
-/-- `fillSubtreeMetEdges_` (:633) -/
+/-- `fillSubtreeMetEdges_` (:638) -/
 def subtreeEdges (g : G) : Nat → Nat → List Nat → TRes (List Nat)
   | 0, _, _ => .fuel
   | fuel + 1, n, met =>
@@ -172,18 +172,16 @@ def nodePath (g : G) (a b : Nat) (includeAncestor : Bool) : TRes (List Nat) :=
         | t1, t2 => (t1, t2)
       let (t1, t2) := strip p1.length p2.length
       let head := p1.take t1
-      -- `pathMatrix1[tmp1]` (:578): when the climbs end at different nodes tmp1 is the size:
-      -- out of bounds, undefined
-      if includeAncestor then
-        match p1[t1]? with
-        | some x => .ok (head ++ [x] ++ (p2.take t2).reverse)
-        | none => .ub
-      else .ok (head ++ (p2.take t2).reverse)
+      -- `tmp1 == pathMatrix1.size()` (:575, as repaired): the climbs end at different nodes, there is no
+      -- common ancestor: raises (the unrepaired code read `pathMatrix1[tmp1]` (:583) past the end)
+      match p1[t1]? with
+      | none => .exc
+      | some x => if includeAncestor then .ok (head ++ [x] ++ (p2.take t2).reverse) else .ok (head ++ (p2.take t2).reverse)
     | .exc, _ => .exc
     | _, .exc => .exc
     | _, _ => .fuel
 
-/-- `getEdgePathBetweenTwoNodes` (:587) -/
+/-- `getEdgePathBetweenTwoNodes` (:592) -/
 def edgePath (g : G) (a b : Nat) : TRes (List Nat) :=
   match nodePath g a b true with
   | .ok p =>
@@ -193,7 +191,7 @@ def edgePath (g : G) (a b : Nat) : TRes (List Nat) :=
     | none => .exc
   | r => r
 
-/-- the second loop of `MRCA` (:672-686): climb from `here` until the line of the first node is
+/-- the second loop of `MRCA` (:677-691): climb from `here` until the line of the first node is
 joined; the rank of the joining point in that line (`rank.find(here)`).  `exc` = hasFather /
 getFatherOfNode threw, or a father-less node outside the line was reached ("MRCA not found") -/
 def joinRank (g : G) (line : List Nat) : Nat → Nat → TRes Nat
@@ -209,7 +207,7 @@ def joinRank (g : G) (line : List Nat) : Nat → Nat → TRes Nat
         | none => .exc
         | some f => joinRank g line fuel f
 
-/-- one turn of the loop over the other nodes (:672): the highest joining point so far -/
+/-- one turn of the loop over the other nodes (:677): the highest joining point so far -/
 def mrcaStep (g : G) (line : List Nat) (fuel : Nat) (acc : TRes Nat) (n : Nat) : TRes Nat :=
   match acc with
   | .ok m =>
@@ -218,7 +216,7 @@ def mrcaStep (g : G) (line : List Nat) (fuel : Nat) (acc : TRes Nat) (n : Nat) :
     | r => r
   | r => r
 
-/-- `MRCA` (:644): the ancestors of the first node (`climb`), then the highest point where the
+/-- `MRCA` (:649): the ancestors of the first node (`climb`), then the highest point where the
 climbs from the other nodes join that line.  The empty list (`throw getRoot()`, a node id and not
 an exception) is not exercised; `exc` stands for it as well -/
 def mrca (g : G) (nodes : List Nat) : TRes Nat :=
@@ -360,7 +358,7 @@ def unRoot (t : T) (join : Bool) : GOut Unit × T :=
     else (.ok () t.g, t)
   andThen step1 (fun _ t1 => t1.makeUndirected)
 
-/-- `getSubtreeNodes` (:599) / `getSubtreeEdges` (:610): `mustBeValid_` (may write the cache), then
+/-- `getSubtreeNodes` (:604) / `getSubtreeEdges` (:615): `mustBeValid_` (may write the cache), then
 `mustBeRooted_`, then the recursion -/
 def getSubtree (edges : Bool) (t : T) (n : Nat) : TRes (List Nat) × T :=
   let (v, t') := t.isValid
